@@ -4,6 +4,7 @@ import random
 import numpy as np
 from .. import gen, pf, impl, scen
 from ..comp import c09wide as wide
+from ..comp import c09long as long_
 
 ID = 'C09'
 THEOREMS = [
@@ -42,7 +43,15 @@ RULE = ('random portfolios, each re-run (a) under an adversarial injective renam
         'cash flow per asset of the SAME dispatch (first solution of the original) under the sample, then the optimal values of both problems with the sample costs; '
         'stream nest (gen_nested, 60 quick): wrappers around wrappers - ScaledAsset with fix costs (min_scale 0 / 0.5 / = max_scale) over a StructuredAsset, over a StructuredAsset that wraps a further ScaledAsset / StructuredAsset, a ScaledAsset inside a StructuredAsset, '
         'a StructuredAsset inside a StructuredAsset, a ScaledAsset over a LinkedAsset (wrapped assets on one window) - the wrapped assets with their own, differing windows (start only, end only, inside, straddling), wrappers with own windows as drawn; all variants; '
-        'stream net (gen_network, 60 quick): LP portfolios over 2..4 nodes with a market per node (contracts, transports, storages, multi-commodity, scaled, structured), mostly confusable names, all three doors, no second stage')
+        'stream net (gen_network, 60 quick): LP portfolios over 2..4 nodes with a market per node (contracts, transports, storages, multi-commodity, scaled, structured), mostly confusable names, all three doors, no second stage; '
+        'stream long (comp/c09long.py, 100 quick): LONG grids (12..60 steps; thorough up to 130) with tiny LP portfolios - 2..3 nodes, a market per node at its own price level (two-way or buy-only), one or two further cheap assets '
+        '(fixed demand, cheap supply, storage, contract with takes, seldom a transport; some on their own window) - under node AND asset names that are confusable THROUGH CONCATENATION, each set from one family around a drawn stem X: '
+        'chain (X, X+digits, X+"1"+digits, X+digits+digits), digits (pure digit strings that are prefixes / suffixes of each other), tail (names ending in digits next to names that are digits), '
+        'paren (X, "X (", "X)", "X (Y)", "X) (Y", ...: the separators of the dispatch labels), sep (X__Y, X_internal_Y, "__", "_internal_", ...), nan (X, Xnan, nan, nan+digits, None, inf, ...), '
+        'step (X_3, X.3, X-3, "X 3", X_t3, X_step_3, X[3], X3.0, ...: suffixes that look like an appended step number); for ANY family a drawn member gets drawn digits appended once more, and names that are a chosen name '
+        'followed / preceded by digits are preferred when the names of a case are picked; as drawn the assets use the family and stem of the nodes (an asset may bear the name of a node); the base scenario bears plainly distinct '
+        'names (N1, N2, mkt_N1, a1, ...) and is compared with the variants rename, rename+permute, rename-inplace and one door exactly as in the other streams (raises, size, status, optimal value, solution carried back, '
+        'reported dispatch balances, reported cash flow per asset; second stage for every other case)')
 ASSUMPTIONS = ['ties between optimal solutions are allowed: solutions are compared by transporting them into the other problem (feasibility + value), not entry by entry',
                'second stage (re-optimisation with fix_time_window): original and variant are pinned to the SAME first-stage solution (that of the original, relabelled), so that ties of the first stage do not '
                'enter; WHICH variables a window pins is C15\'s subject - here only that it does not depend on names and order; a set-up with fix_time_window that raises for the original AND for the variant is not reported here',
@@ -54,8 +63,9 @@ ASSUMPTIONS = ['ties between optimal solutions are allowed: solutions are compar
                'rename-door: what a door does to a portfolio WHATEVER it is called (e.g. a LinkedAsset cannot be loaded from JSON: no door variant in the LinkedAsset streams) is the subject of C11: the same door is passed with the original names, '
                'and only kinds of difference that do not occur there are reported (the others are counted as feature door-changes-original); run_from_json returns tables only, so the per-asset comparison there is: a column under every new label, balance per node, cash flows sum to the value (no comparison of columns that ties may change)',
                'price sample: a cost vector (costs_only) whose length differs from the number of variables of the ORIGINAL portfolio is not used (feature sample:original-length-differs; C17\'s subject); cost vectors that differ without any effect on cash flows of the first solution or on the optimal value under the sample are counted (feature sample:costs-differ-without-effect), not reported',
+               'stream long: the grids have at most 60 steps in the quick tier (130 in the thorough tier), so a step number has at most two (three) digits; the variant permute on its own is left to the other streams',
                'LinkedAsset stream: all wrapped assets live on the same window; with differing windows the set-up depends on the order of the wrapped assets (probe linked-inner-order, finding F-09e) - the other variants are not run there']
-EXPLANATION = 'theorems about the model assemble; metamorphic oracle on the real code (optimisation, re-optimisation with a fixed time window, price samples through costs_only) under renaming (in code, in place, through JSON / run_from_json / set_param; confusable names) and permutation (outer list and wrapped assets at any level of nesting)'
+EXPLANATION = 'theorems about the model assemble; metamorphic oracle on the real code (optimisation, re-optimisation with a fixed time window, price samples through costs_only) under renaming (in code, in place, through JSON / run_from_json / set_param; confusable names; on long grids names confusable through concatenation with numbers and with the separators the package writes) and permutation (outer list and wrapped assets at any level of nesting)'
 
 # second stage (re-optimisation with fix_time_window) of every variant; development switch
 STAGE2 = True
@@ -66,7 +76,7 @@ ADV = ['1', '11', '111', 'A', 'AA', 'a b', '0', '00', 'x_internal_y', 'n (m)', '
 
 
 def scenarios(seed, tier):
-    n = 400 if tier == 'quick' else 2400
+    n = 370 if tier == 'quick' else 2400
     rnd = random.Random(seed * 7919 + 9)
     for i in range(n):
         r2 = random.Random(rnd.getrandbits(48))
@@ -101,6 +111,8 @@ def scenarios(seed, tier):
     for cid, s in linked_scenarios(seed, tier):
         yield cid, s
     for cid, s in wide_scenarios(seed, tier):
+        yield cid, s
+    for cid, s in long_scenarios(seed, tier):
         yield cid, s
     # permutations and renamings INSIDE wrappers: model vs real structured problems and the statements of EAO.C09N on both (comp/nestedperm.py)
     _rnp = random.Random(seed * 104729 + 909)
@@ -160,6 +172,28 @@ def wide_scenarios(seed, tier):
         s['doors'] = 'all'
         s.pop('stage2', None)       # (the price sample 'prices2' stays)
         yield 'net%d' % i, s
+
+
+def long_scenarios(seed, tier):
+    """stream 'long' (comp/c09long.py): tiny LP portfolios (2..3 nodes, a market per node, one or two cheap assets) on LONG grids
+    (12..60 steps; thorough: up to 130) under node and asset names that are confusable through concatenation with numbers and with
+    the package's own separators; the base scenario bears plainly distinct names"""
+    n = 100 if tier == 'quick' else 800
+    rnd = random.Random(seed * 7919 + 90009)
+    for i in range(n):
+        r2 = random.Random(rnd.getrandbits(48))
+        s = long_.gen_long(r2, tier)
+        s['stream'] = 'long'
+        finish_case(r2, s)
+        draw_wide(r2, s, names_prob=0.0)
+        names = [a['name'] for a in scen.all_asset_specs(s)]
+        s['amap'], s['nmap'], s['names'] = long_.draw_names(random.Random(r2.getrandbits(48)), names, s['nodes'])
+        # the names are the subject here (the order alone is that of the other streams): no variant 'permute' on its own, and the
+        # second stage for half of the cases (a case stays cheap on a long grid)
+        s['variants'] = ['rename', 'rename+permute', 'rename-inplace']
+        if i % 2:
+            s.pop('stage2', None)
+        yield 'long%d' % i, s
 
 
 # ------------------------------------------------------------------ second stage: re-optimisation with a fixed time window
@@ -636,7 +670,7 @@ def probe_linked_inner_order(scn, drv):
     return r
 
 
-INFO_KEYS = ('amap', 'nmap', 'perm', 'inplace', 'linked', 'stage2', 'prices2', 'iperm', 'door', 'doors', 'names', 'nested', 'stream')
+INFO_KEYS = ('amap', 'nmap', 'perm', 'inplace', 'linked', 'stage2', 'prices2', 'iperm', 'door', 'doors', 'names', 'nested', 'stream', 'variants')
 
 
 def run_case(scn, drv):
@@ -703,6 +737,8 @@ def run_case(scn, drv):
     ip_perm = list(scn['perm']) if ipo.get('permute') else None
     variants.append(('rename-inplace', ('inplace', ipo, ip_perm), ip_perm or ident))
     feats.append('inplace:first=%s' % ipo.get('first'))
+    if scn.get('variants'):
+        variants = [v for v in variants if v[0] in scn['variants']]
     # the renamed portfolio taken through a door of the public API (JSON string / file, run_from_json, set_param)
     doors = []
     if scn.get('door'):
